@@ -370,7 +370,7 @@ fn note_nontrivial(ctx: &Ctx, text: &str) {
     }
 }
 
-fn text_outcome(ctx: &Ctx, kind: &str, text: &str, extra_class: Option<&str>) -> Outcome {
+pub fn text_outcome(ctx: &Ctx, kind: &str, text: &str, extra_class: Option<&str>) -> Outcome {
     let mut st = TextStats::default();
     let res = check_text(text, &mut st);
     let k = |s: &str| format!("{}:{}", kind, s);
@@ -643,6 +643,9 @@ impl Prop for C11 {
     fn id(&self) -> &'static str {
         "C11"
     }
+    fn fuzz_stage(&self) -> Option<(&'static str, u64, usize)> {
+        Some(("reader", 3_000_000, 256))
+    }
     fn rule(&self) -> &'static str {
         "uni: random Unicode strings (<= 40 scalars, heavy on # \\ \" ; ' ` , . brackets and whitespace kinds); soup: lexemes of every token class joined by random separators/comments/nothing; mut: corpus programs and generated datum texts with 1-4 character/token/subtree mutations; wf: well-formed datum sequences built by construction, every token-boundary prefix of every top-level datum checked with and without a whitespace/comment trailer. A text is non-trivial when the scanner returns >= 3 tokens of >= 2 token types or a multi-byte character touches a token boundary (wf: >= 3 tokens); distinct by text."
     }
@@ -676,6 +679,7 @@ impl Prop for C11 {
             "soup" => random_outcome(ctx, "soup", &bytes),
             "mut" => random_outcome(ctx, "mut", &bytes),
             "wf" => wf_outcome(ctx, &bytes),
+            "fuzz:reader" => text_outcome(ctx, "fuzz", &String::from_utf8_lossy(&bytes), None),
             _ => {
                 let text = payload["text"].as_str().unwrap_or("").to_string();
                 text_outcome(ctx, "text", &text, None)
